@@ -48,6 +48,27 @@ def main():
             out_load.append({"err": "textx:" + type(ex).__name__})
         except Exception as ex:  # conversion errors etc.
             out_load.append({"err": "exc:" + type(ex).__name__})
+    out_alts = []
+    amms = {}
+    for types, text in payload.get("alts", []):
+        key = "|".join(types)
+        mm = amms.get(key)
+        if mm is None:
+            g = "Model: v*=V; V: %s; " % " | ".join("R%d" % i for i in range(len(types)))
+            g += " ".join("R%d: v=%s;" % (i, t) for i, t in enumerate(types))
+            mm = amms[key] = metamodel_from_str(g)
+        try:
+            m = mm.model_from_str(text)
+            if isinstance(m, str) and m == "":
+                out_alts.append({"empty": True})
+            else:
+                out_alts.append({"v": [[int(type(x).__name__[1:]), canon_val(x.v), x._tx_position, x._tx_position_end] for x in m.v]})
+        except TextXSyntaxError as ex:
+            out_alts.append({"err": "syntax", "line": ex.line, "col": ex.col})
+        except TextXError as ex:
+            out_alts.append({"err": "textx:" + type(ex).__name__})
+        except Exception as ex:
+            out_alts.append({"err": "exc:" + type(ex).__name__})
     out_rx = []
     chars = set()
     for name, pattern, flags, strings in payload.get("rx", []):
@@ -96,7 +117,7 @@ def main():
     for c in chars:
         if ord(c) >= 128:
             cls[str(ord(c))] = (1 if d.match(c) else 0) | (2 if w.match(c) else 0) | (4 if sp.match(c) else 0)
-    json.dump({"load": out_load, "rx": out_rx, "rxh": out_rxh, "cls": cls}, sys.stdout)
+    json.dump({"load": out_load, "alts": out_alts, "rx": out_rx, "rxh": out_rxh, "cls": cls}, sys.stdout)
 
 
 main()
